@@ -94,7 +94,7 @@ class RegionGeom:
     def throw(self, u=None):
         """Throw N events with 4 * u random numbers"""
 
-        if isinstance(u, int):
+        if isinstance(u, (int, np.integer)) and not isinstance(u, bool):
             # fix to make closed in [0,1]
             u = np.random.rand(4, u)
 
@@ -486,7 +486,7 @@ class RegionGeomToO:
         """
         Function to generate times within the simulation time period
         """
-        if isinstance(times, int):
+        if isinstance(times, (int, np.integer)) and not isinstance(times, bool):
             times = np.arange(times) / times
 
         if times is None:
